@@ -37,7 +37,7 @@ META = {
              "diverged). (b) thread counts 1..16 x jitter seeds over the scenarios and over pinned + seeded trees of "
              "20-40 files. Distinct = (scenario, mode, forced schedule) resp. (tree, mode, num_threads, jitter seed); "
              "non-trivial = the scenario makes at least two different thread classes touch the exit status (or contains "
-             "a crash) so that an order exists that could matter."),
+             "a crash) so that an order exists that could matter. The sweep also runs the small check-mode sets and the pinned trees under --output-format Summary / Json / Unified (the status does not depend on how differences are printed)."),
     "assumptions": [
         "H3: every EXIT_CODE operation of M and O is a schedule point, a worker job holds its turn from `begin` to `end`; completeness of the enumeration is relative to this granularity (stdout lock order and channel internals are only swept)",
         "a thread class's next operation is a deterministic function of the forced prefix (messages received, values its atomic operations returned)",
